@@ -137,7 +137,15 @@ def _check_align(case):
     return 1, "ok", (len(s1), len(pts), len(ref), md), viols
 
 
-FILTERS = (None, "ac", "", "ac", "ac")  # 3: the callback answers with a re.Match / None, 4: with a count (truthy / falsy values, as filter() accepts)
+class _LabelSet(frozenset):
+    """a filter that is a callable OBJECT: a set of labels with `__call__` = membership.  An empty one is a perfectly good filter (it selects
+    nothing) that happens to be falsy"""
+
+    def __call__(self, label):
+        return label in self
+
+
+FILTERS = (None, "ac", "", "ac", "ac", "ac", "")  # 3: the callback answers with a re.Match / None, 4: with a count (truthy / falsy values, as filter() accepts)
 
 
 def _check_morph(case):
@@ -152,11 +160,13 @@ def _check_morph(case):
         filt = lambda l, keep=FILTERS[fi]: _re.match("[%s]" % keep, l)
     elif fi == 4:
         filt = lambda l, keep=FILTERS[fi]: sum(1 for ch in keep if ch == l)
+    elif fi in (5, 6):      # a callable object (a truthy one, and an empty = falsy one)
+        filt = _LabelSet(FILTERS[fi])
     else:
         filt = lambda l, keep=FILTERS[fi]: l in keep
     before = (canon(ta), canon(tb))
     st, r, _ = call(ta.morph, tb, filt)
-    tag = f"morph source={ea} span=({lo},{hi}) target={eb} filter={FILTERS[fi]!r}{' (answering with a Match object)' if fi == 3 else ' (answering with a count)' if fi == 4 else ''}"
+    tag = f"morph source={ea} span=({lo},{hi}) target={eb} filter={FILTERS[fi]!r}{' (answering with a Match object)' if fi == 3 else  ' (answering with a count)' if fi == 4 else ' (a callable set object, falsy when empty)' if fi in (5, 6) else ''}"
     viols = []
     if (canon(ta), canon(tb)) != before:
         viols.append(Viol("morph-mutated-operand", tag))
@@ -267,7 +277,7 @@ def parts(tier):
     def gen_morph():
         for A in sets3:
             for B in sets3:
-                for fi in range(5):
+                for fi in range(len(FILTERS)):
                     if fi >= 3 and (len(A) + len(B)) % 2:
                         continue
                     yield (D.labelled(A, "abc"), D.labelled(B, "xyz"), fi)
